@@ -152,6 +152,7 @@ fn main() {
         }
     }
     let scratch = scratch_dir("C14");
+    let _ = TEMP_BASE.set(scratch.clone());
     let mut n_hist: u64 = if thorough { 400 } else { 40 };
     let mut only: Option<u64> = None;
     let mut probes_only = false;
